@@ -64,6 +64,7 @@ let table : (string * (sexp -> sexp)) list = [
   ("C12", run_C12);
   ("C10", run_C10);
   ("C07", run_C07);
+  ("C08", run_C08);
 ]
 
 let () =
